@@ -97,6 +97,13 @@ func (w *World) WriteFile(p string, data []byte, mode os.FileMode) *Node {
 	return n
 }
 
+// MkdirAs creates a directory attributed to creator (harness scaffolding).
+func (w *World) MkdirAs(p, creator string) {
+	w.mu.Lock()
+	defer w.mu.Unlock()
+	w.fs[clean(p)] = &Node{Kind: KDir, Mode: os.ModeDir | 0o755, ReadErrAt: -1, Creator: creator}
+}
+
 func (w *World) Mkdir(p string) {
 	w.mu.Lock()
 	defer w.mu.Unlock()
